@@ -394,6 +394,9 @@ func runE3(r *vk.Run) *e3stats {
 			if p.Bad != "" {
 				win := p.Window
 				if cleanToo[isNonceClass(p.Class)] {
+					if p.Window != "clean-shutdown-after-commit" {
+						continue // same root cause as in the crash-free restart: reported there
+					}
 					win = "clean-restart"
 				}
 				key := "restart-forgets-consumed-input:" + win
